@@ -63,6 +63,16 @@ class GopherEntry:
         self.ea = {}  # Extended attributes -- Gopher+
         # Abstract, etc.
 
+    def __getstate__(self):
+        """Entries are pickled into the directory cache files, which live in
+        the served tree.  The configuration object is not part of an entry's
+        state (whoever loads the entry gives it its own), and it holds things
+        that have no business there: the path of the root, of the key files,
+        every option of every section of the configuration file."""
+        state = self.__dict__.copy()
+        state["config"] = None
+        return state
+
     def populatefromvfs(self, vfs: VFS_Real, selector: str) -> None:
         self.populatefromfs(selector, statval=vfs.stat(selector), vfs=vfs)
 
